@@ -18,5 +18,5 @@ PY
 (cd $W && GOCACHE=/tmp/verif-gocache-alt GOFLAGS=-mod=mod go build -trimpath ./... ) || { echo "mutant does not build"; exit 9; }
 for id in "$@"; do
   out=$(cd $ROOT && VERIF_REPO=$W ./check $id ${MUT_TIER:-quick} 2>&1); rc=$?
-  echo "== $id exit=$rc"; echo "$out" | grep -E "VIOLATION|signature|INFRA|KNOWN|^OK|NOTE spec-extension" | head -${MUT_LINES:-6} | cut -c1-260
+  echo "== $id exit=$rc"; echo "$out" | grep -E "${MUT_GREP:-VIOLATION|signature|INFRA|KNOWN|^OK|NOTE spec-extension}" | head -${MUT_LINES:-6} | cut -c1-260
 done
